@@ -134,7 +134,7 @@ func TestDirected(t *testing.T) {
 	}
 	defer s.Close()
 	s.Start()
-	if ok, _, why := s.SyncRun(s.Correct, 3, 2000); !ok {
+	if ok, _, why := s.SyncRun(s.Correct, 3, 400); !ok {
 		t.Fatalf("harness: could not build the chain: %s", why)
 	}
 	src := s.Nodes[0]
